@@ -11,13 +11,22 @@ CHEAP = ["RandomUniform", "Halton", "RSequence", "BestBatch", "ParticleSwarm"]
 
 
 # --------------------------------------------------------------------------- search spaces
-def gen_space(rng, dims=None, max_points=400, aligned_only=False, fine=False):
+def gen_space(rng, dims=None, max_points=400, aligned_only=False, fine=False, giant_ok=False):
     """Return descriptor {"bounds": [[lo...],[up...]], "precision": [...], "styles": [...]}."""
     d = int(rng.integers(1, 7)) if dims is None else dims
     lo, up, pr, styles = [], [], [], []
-    for _ in range(d):
+    # axes that all have the same NUMBER of grid points but different values (a length is not an identity)
+    common = int(rng.choice([2, 3, 5, 10, 37])) if (d >= 2 and not fine and rng.random() < 0.15) else None
+    # one axis with more than a million grid points ("effectively continuous" - but still a grid)
+    giant = int(rng.integers(d)) if (giant_ok and not fine and not aligned_only and rng.random() < 0.04) else None
+    for ax in range(d):
         style = "dyadic" if aligned_only else str(rng.choice(["dyadic", "decimal", "nondividing", "offset", "tiny", "huge"]))
         npts = int(rng.choice([1, 2, 3, 5, 10, 37, 100, int(rng.integers(2, max_points))]))
+        if common is not None:
+            npts = common
+        if giant == ax:
+            npts = int(rng.integers(1_000_001, 1_300_000))
+            style = str(rng.choice(["dyadic", "decimal"]))
         if fine:  # many cells per axis: small changes of a raw proposal survive the snap
             npts = int(rng.integers(500, 4000))
             style = str(rng.choice(["dyadic", "decimal", "nondividing"]))
